@@ -288,6 +288,10 @@ def run(chk):
     r18_3(chk)
     r18_4(chk)
     r18_5(chk)
+    # R18.6 one rebuild, one consistent set of prescribed values; the reported fields use the requested load level
+    pyrules.check_derive_order(chk, 'R18.6', CONECYL, 'ConeCyl', '_rebuild', floor=7)
+    pyrules.check_forwarding(chk, 'R18.6', CONECYL, 'ConeCyl', 'inc', methods=('uvw', 'strain', 'stress', 'plot'), floor=7,
+                             why='the prescribed amplitudes are re-inserted as inc*value: the reported field belongs to another load level')
     chk.explanation = ('fg vs fuvw agreement in all commons modules; degree in the load factor of every load; closed forms of the axial and '
                        'pressure terms as polynomial identities; right-hand-side terms of prescribed amplitudes; geometry identities; '
                        'inverse bookkeeping of partition and re-insertion')
